@@ -46,7 +46,7 @@ def setup() -> None:
 
 
 def budget(tier: str) -> int:
-    return 2500 if tier == "quick" else 40000
+    return 2500 if tier == "quick" else 200000
 
 
 FMTS = ["%.18e", "%.18e", "%.6e", "%d", "%.3f"]
